@@ -147,6 +147,9 @@ def register(ctx, it, only_run=False, res=None):
         provider.fields['primitive'] = prim0
         del events_of(provider)[:]
         p.ghost['decoded_from'] = None
+        # framing must not depend on the protocol state
+        sta = p.choose([True] * 13, 'protocol state') + 1
+        provider.fields['state_machine'].fields['current_state'] = States.attrs['STA_%d' % sta]
         try:
             r = it.call(it.getattr(provider, '_process_incoming'), [], {})
         except Raised as e:
